@@ -87,6 +87,17 @@ func RegisterIntrinsics(p string) {
 		fr.i.eng.assertExcept(cond(args[0]), strOf(args[1]), "", nil)
 		return nil
 	}
+	// Lemma: an assertion that, once proved on this path, is added to the path condition (it is implied by it),
+	// so that later nonlinear assertions can build on it
+	x[P+"Lemma"] = func(fr *frame, args []value) value {
+		e := fr.i.eng
+		c := cond(args[0])
+		e.assertExcept(c, strOf(args[1]), "", nil)
+		if e.lastProved && e.spec.Concrete == nil {
+			e.addPC(c)
+		}
+		return nil
+	}
 	x[P+"AssertExcept"] = func(fr *frame, args []value) value {
 		fr.i.eng.assertExcept(cond(args[0]), strOf(args[1]), strOf(args[2]), cond(args[3]))
 		return nil
